@@ -451,6 +451,11 @@ func (x *Exec) trCall(t *CCall, env *Env) Val {
 			return Val{T: tBool, S: sel(m.S, k.S)}
 		}
 		return Val{T: tBool, S: sel(x.mapDom(env.cur, m), k.S)}
+	case "had":
+		// membership in the map as it was on entry (key evaluated in the current state)
+		m := arg(0)
+		k := arg(1)
+		return Val{T: tBool, S: sel(x.mapDom(env.old, m), k.S)}
 	case "is":
 		return Val{T: tBool, S: app("wraps", arg(0).S, arg(1).S)}
 	case "min":
